@@ -618,6 +618,74 @@ def check_new_variable_fresh(col, vm, rule):
                   "sibling block re-using the name) starts from the previous variable's value", VM, nv.case)
 
 
+def run_R01_9(model, col, G, vm):
+    """R01.9 (a) a conditional branch goes to its true block exactly when the predicate value is truthy - the value itself, not
+    a conversion of it (int(0.5) is 0); (b) an integer constant denotes the value its spelling has in the language (decimal,
+    leading 0 = octal, 0x = hexadecimal): the token the lexer's ordered rules produce for a spelling and the conversion the
+    parser applies to that token agree, folded over sample spellings."""
+    from ..miniev import CannotEval, ev
+    from ..sem import rtext
+
+    arm = vm.arm("BRANCH")
+    env = {}
+    for st in [s for b in arm.body for s in ast.walk(b)]:
+        if isinstance(st, ast.Assign) and len(st.targets) == 1 and isinstance(st.targets[0], ast.Name) and st.targets[0].id != "currentInstruction":
+            env[st.targets[0].id] = None if st.targets[0].id in env else st.value
+    env = {k: v for k, v in env.items() if v is not None}
+    seen = {}
+    bad = []
+    for evs, status in paths(arm.body):
+        if status == "raise":
+            continue
+        a = cond_atoms(evs, env)
+        # the target is read along the path: locals bound on this path stand for what they were bound to last
+        from ..sem import resolve as _rs19
+
+        penv = dict(env)
+        tgt = []
+        for e in evs:
+            if e.kind == "stmt" and isinstance(e.node, ast.Assign) and len(e.node.targets) == 1 and isinstance(e.node.targets[0], ast.Name):
+                if e.node.targets[0].id == "currentInstruction":
+                    tgt.append(rtext(e.node.value, penv))
+                else:
+                    penv[e.node.targets[0].id] = _rs19(e.node.value, {k: v for k, v in penv.items() if k != e.node.targets[0].id})
+        block = next((k for k in ("TrueBlock", "FalseBlock") if tgt and f"instruction.{k}.Reference" in tgt[-1]), None)
+        has_pred = a.get("instruction.Predicate")
+        val = next((v for k, v in a.items() if k.replace(" ", "") in ("localScope[instruction.Predicate.Reference]", "localScope[instruction.Predicate.Reference]!=0", "bool(localScope[instruction.Predicate.Reference])")), None)
+        other = [k for k in a if "Predicate" in k and k != "instruction.Predicate" and k.replace(" ", "") not in ("localScope[instruction.Predicate.Reference]", "localScope[instruction.Predicate.Reference]!=0", "bool(localScope[instruction.Predicate.Reference])")]
+        seen[(has_pred, val)] = block
+        if other:
+            bad.append(f"the branch is decided by `{other[0][:60]}`")
+    want = {(True, True): "TrueBlock", (True, False): "FalseBlock", (False, None): "TrueBlock"}
+    col.check(not bad and all(seen.get(k) == v for k, v in want.items()), "R01.9", f"{VM}::__Execute BRANCH arm", "true block iff the predicate's value is truthy; unconditional branches take the true block",
+              (bad[0] if bad else f"targets per (has predicate, predicate value): {seen}") + "; expected the predicate value itself to choose (a float predicate between 0 and 1 is true)", VM, arm.case)
+    # (b) integer spellings
+    lx = G.lexer
+    conv = {}
+    for P in G.productions:
+        if len(P.syms) == 1 and P.syms[0] in G.terminals:
+            for c in ast.walk(P.func):
+                if isinstance(c, ast.Call) and last_attr(c) == "LiteralExpression" and c.args and isinstance(c.args[0], ast.Call) and isinstance(c.args[0].func, ast.Name) and c.args[0].func.id == "int":
+                    conv[P.syms[0]] = c.args[0]
+    col.floor("R01.9", "integer literal productions", len(conv), 3)
+    samples = {"0": 0, "7": 7, "10": 10, "123": 123, "010": 8, "0777": 511, "0x10": 16, "0X1f": 31, "0xFF": 255, "90": 90}
+    wrong = []
+    for s, value in samples.items():
+        tok, n = lx.first_match(s)
+        if tok not in conv or n != len(s):
+            wrong.append(f"`{s}` is tokenised as {tok} ({n} of {len(s)} characters)")
+            continue
+        try:
+            got = ev(conv[tok], {"p": [None, s]})
+        except (CannotEval, ValueError) as e:
+            wrong.append(f"`{s}` ({tok}): {type(e).__name__} {e}")
+            continue
+        if got != value:
+            wrong.append(f"`{s}` is read as {got} (token {tok}, `{unparse(conv[tok])}`), its value is {value}")
+    col.check(not wrong, "R01.9", "nsl/lexer.py + nsl/parser.py:: integer constant spellings", f"{len(samples)} sample spellings denote their value",
+              "; ".join(wrong[:3]) + ": the order of the lexer's rules / their patterns and the parser's conversions disagree about what a spelling means", "nsl/lexer.py", lx.cls.node)
+
+
 def run(model, col, tier):
     G = Grammar(model)
     vm = VMModel(model)
@@ -628,6 +696,7 @@ def run(model, col, tier):
     lowering.check_scope_tables(model, col, "R01.8")
     run_R01_4(model, col, vm)
     run_R01_5(model, col, vm)
+    run_R01_9(model, col, G, vm)
     # R01.6 grouping = the C08 rule set; R01.7 activation state = C03 R03.1/R03.2
     from ..report import Collector
 
